@@ -1041,4 +1041,76 @@ theorem validatePool_promotes (s : State) (x h : Nat) (voted : List Nat) (cands 
     alGet (validatePool s x h).validatedPools x = some ((alGet cands x).getD []) := by
   simp [validatePool, hg, alGet_alSet]
 
+/-! ### validation inside `poll` -/
+
+theorem alGet_evict_pools (hs : List Nat) : ∀ (s : State) (k : Nat),
+    alGet (evict s hs).hashPools k = if k ∈ hs then none else alGet s.hashPools k := by
+  induction hs with
+  | nil => intro s k; simp [evict]
+  | cons h hs ih =>
+    intro s k
+    simp only [evict]
+    split
+    · rw [ih]
+      show (if k ∈ hs then none else alGet (alRemove s.hashPools h) k) = _
+      rw [alGet_alRemove]
+      by_cases hk : k = h
+      · subst hk; simp
+      · simp [hk]
+    · rw [ih]
+      show (if k ∈ hs then none else alGet (alRemove s.hashPools h) k) = _
+      rw [alGet_alRemove]
+      by_cases hk : k = h
+      · subst hk; simp
+      · simp [hk]
+    · rename_i hnone
+      rw [ih]
+      by_cases hk : k = h
+      · subst hk; simp [hnone]
+      · simp [hk]
+
+theorem tryUpdate_keeps_own_pool (s : State) (h : Nat) (hpos : 0 < h) :
+    alGet (tryUpdateSubjectiveHead s h).hashPools h = alGet s.hashPools h := by
+  unfold tryUpdateSubjectiveHead
+  split
+  · rfl
+  · split
+    · rfl
+    · rename_i old _ _
+      simp only
+      rw [alGet_evict_pools]
+      have : h ∉ List.range' (staleThreshold old) (staleThreshold h + 1 - staleThreshold old) := by
+        simp only [List.mem_range'_1, not_and, Nat.not_lt]
+        intro _
+        unfold staleThreshold
+        rw [rootHashWindow_eq]
+        omega
+      simp [this]
+
+theorem tryUpdate_events (s : State) (h : Nat) :
+    (tryUpdateSubjectiveHead s h).pendingEvents = s.pendingEvents := by
+  unfold tryUpdateSubjectiveHead
+  split
+  · rfl
+  · split
+    · rfl
+    · exact (evict_fields _ _).2.1
+
+/-- when `poll` consumes the arrival of header `h` (data hash `x`) while `h` is still unvalidated, every
+    voter of another hash is named in a `BlockPeers` of the resulting queue -/
+theorem poll_validation_blocks (s : State) (h x : Nat) (voted : List Nat) (cands : List (Nat × List Nat))
+    (hq : s.pendingEvents = []) (hres : (pollNext s.stored s.queue s.waiters).2.2 = some (.ok h x))
+    (hg : alGet s.hashPools h = some (.candidates voted cands)) (hpos : 0 < h) :
+    (poll s).2 = .readyNone ∧
+    ∀ c ∈ cands, c.1 ≠ x → ∀ p ∈ c.2, ∃ bs, Ev.blockPeers bs ∈ (poll s).1.pendingEvents ∧ p ∈ bs := by
+  have hpoll : poll s = (validatePool (tryUpdateSubjectiveHead
+      { s with queue := (pollNext s.stored s.queue s.waiters).1, waiters := (pollNext s.stored s.queue s.waiters).2.1,
+               arrived := s.arrived ++ [(h, x)] } h) x h, .readyNone) := by
+    simp [poll, pollLoop, hq, hres]
+  rw [hpoll]
+  refine ⟨rfl, ?_⟩
+  apply validatePool_blocks _ x h voted cands
+  rw [tryUpdate_keeps_own_pool _ _ hpos]
+  exact hg
+
 end Lumina.Proofs.Pools
